@@ -87,10 +87,20 @@ InsertSimple(cmp, s) ==
 
 SimpleOf(toks) == Parse(toks)[1][1].cmp[1]
 
-DeriveComplexSet(c, adds, prefixes) ==
+(* ancestors / parents are added in front of the selector or at a descendant combinator (`X Y` -> `X Z Y`, *)
+(* `X > Z Y`, `X Z > Y`: X stays an ancestor of Y); `infixes` are complex selectors, and a copy of the      *)
+(* compound on the left of the combinator is inserted as well (a repeated name closer to the target)       *)
+InsertAt(c, k, mid, cb1, cb2) ==        \* between c[k-1] and c[k] (c[k].comb = "sp")
+  SubSeq(c, 1, k - 1) \o WithComb(mid, cb1) \o <<[c[k] EXCEPT !.comb = cb2]>> \o SubSeq(c, k + 1, Len(c))
+
+DeriveComplexSet(c, adds, prefixes, infixes) ==
   {d \in {[c EXCEPT ![k].cmp = InsertSimple(c[k].cmp, SimpleOf(s))] : k \in 1..Len(c), s \in adds} :
         \A k \in 1..Len(d) : Len(d[k].cmp) > 0}
   \cup {Parse(p)[1] \o WithComb(c, cb) : p \in prefixes, cb \in {"sp", ">"}}
+  \cup UNION {{InsertAt(c, k, mid, cb[1], cb[2]) :
+                  mid \in {Parse(x)[1] : x \in infixes} \cup {<<[comb |-> "", cmp |-> c[k - 1].cmp]>>},
+                  cb \in {<<"sp", "sp">>, <<">", "sp">>, <<"sp", ">">>}}
+              : k \in {k \in 2..Len(c) : c[k].comb = "sp"}}
 
 (* monitor side: the closure, as a predicate on two complex selectors *)
 CompoundExt(mc, bc) ==
@@ -98,13 +108,20 @@ CompoundExt(mc, bc) ==
   /\ PeCount(bc) = PeCount(mc)
   /\ LET p == FirstPe(bc)  q == FirstPe(mc) IN (p = 0 /\ q = 0) \/ (p > 0 /\ q > 0 /\ From(bc, p) = From(mc, q))
 
-IsDerivedComplex(m, b) ==
-  /\ Len(b) >= Len(m)
-  /\ LET off == Len(b) - Len(m) IN
-     /\ (IF off = 0 THEN b[1].comb = m[1].comb ELSE (m[1].comb = "" /\ b[off + 1].comb \in {"sp", ">"}))
-     /\ \A k \in 2..Len(m) : b[off + k].comb = m[k].comb
-     /\ \A k \in 1..Len(m) : Len(b[off + k].cmp) >= Len(m[k].cmp)
-     /\ \A k \in 1..Len(m) : CompoundExt(m[k].cmp, b[off + k].cmp)
+(* EmbedDer(m, k, b, j): m[1..k] is found in b[1..j] with m[k] at b[j]: every compound only gained simple  *)
+(* selectors, an explicit combinator of m is kept with its two compounds adjacent, and where m has a        *)
+(* descendant combinator b has the same or added ancestors / parents (only descendant and child             *)
+(* combinators in between); in front of m[1] anything may stand that ends in a descendant / child combinator *)
+RECURSIVE EmbedDer(_, _, _, _)
+EmbedDer(m, k, b, j) ==
+  /\ j >= k
+  /\ CompoundExt(m[k].cmp, b[j].cmp)
+  /\ IF k = 1 THEN (IF j = 1 THEN b[1].comb = m[1].comb ELSE (m[1].comb = "" /\ b[j].comb \in {"sp", ">"}))
+     ELSE IF m[k].comb # "sp" THEN b[j].comb = m[k].comb /\ EmbedDer(m, k - 1, b, j - 1)
+     ELSE \/ (b[j].comb = "sp" /\ EmbedDer(m, k - 1, b, j - 1))
+          \/ \E i \in (k - 1)..(j - 2) : /\ \A q \in (i + 1)..j : b[q].comb \in {"sp", ">"}
+                                          /\ EmbedDer(m, k - 1, b, i)
+IsDerivedComplex(m, b) == Len(b) >= Len(m) /\ EmbedDer(m, Len(m), b, Len(b))
 
 (* the observations the property forces to be true *)
 MustTrue(A, B) == A = B \/ (Len(B) = 1 /\ \E i \in 1..Len(A) : IsDerivedComplex(A[i], B[1]))
